@@ -175,6 +175,10 @@ func init() {
 		case "MapOrderNondet":
 			p.mapOrderNondet = a[0].(*Term).val != 0
 			return nil, true
+		case "RandZero":
+			// stated reduction for schedule-centred harnesses: padding draws and random bytes are all zero
+			p.randZero = a[0].(*Term).val != 0
+			return nil, true
 		case "RandIntSmall":
 			p.randSmall = a[0].(*Term).val != 0
 			return nil, true
@@ -220,6 +224,13 @@ func init() {
 		case "Blocked":
 			id := p.intArg(a[0])
 			return p.tt.Bool(p.threads[id].state == stBlocked), true
+		case "FineGrain":
+			// plain loads/stores of possibly shared memory inside the named function become scheduling points
+			if p.fineFuncs == nil {
+				p.fineFuncs = map[string]bool{}
+			}
+			p.fineFuncs[p.strArg(a[0])] = true
+			return nil, true
 		case "TimedSleep":
 			p.timedSleep = a[0].(*Term).val != 0
 			return nil, true
